@@ -15,7 +15,8 @@ MANIFEST = dict(
          "mismatch rejected, replication of element 0 guarded by a length test) read the routine together with the private helpers it "
          "calls and classify names by the public parameter they derive from and tests by what they say; linear interpolation is compared "
          "with (u-x_k)(v_{k+1}-v_k)/(x_{k+1}-x_k)+v_k where the segment index is decided to be clamp(searchsorted(x,u)-1, 0, n-2) by "
-         "complete enumeration of the integer cases however the clamp is spelled; cov->cor and cor->cov are evaluated element by element "
+         "complete enumeration of the integer cases however the clamp is spelled, and no input may be narrowed (cast to an integer type or to "
+         "another input's dtype) between the public parameter and the search / formula (data flow through array re-presentations); cov->cor and cor->cov are evaluated element by element "
          "(loop nests over full index ranges and broadcast stores alike) and compared with the element formulas, with their symbolic "
          "inverse for a positive diagonal, the float64 result buffer and the rejection of a non-positive diagonal; sigma_clip, wmedian, "
          "get_stats and boxcar_average are executed on every path (loops unrolled up to a bound, private helpers entered, other package "
@@ -23,7 +24,9 @@ MANIFEST = dict(
          "path the reported statistics are those of the reported set, every keep test is the strict |x-mean| < nsig*deviation on the "
          "current set and its own statistics, the loop is left only for all-clipped / nothing-changed (count compared with the size of the "
          "current set) or after exactly niter passes; the weighted median returns the value at sorted position k exactly when the "
-         "remaining weight exceeds half the total for all earlier positions and not for k; the summary helper wires "
+         "remaining weight exceeds half the total for all earlier positions and not for k, or, when the position is computed in closed form "
+         "(cumsum + searchsorted / argmax / where / count over the weights in sorted order), is the first position whose running weight is >= "
+         "half the total by the abstract meaning of these primitives; the summary helper wires "
          "min/max/mean/deviation/error from these routines in the right roles with the right keywords.",
     note="Not decided: numerical values, behaviour for zero total weight, more than 3 (clipping) / 4 (median) passes of a loop (the paths are "
          "structurally uniform). Trusted: numpy reductions (sum/mean/std/min/max), searchsorted, argsort, where, sympy normaliser.",
@@ -37,7 +40,12 @@ SUM = sp.Function("SUM")
 
 # rules that keep their verdict however the code is laid out (decided by term equality over all paths, element evaluation, or
 # control-dependence facts read through helpers); every other rule of this check is a template rule (vcheck.core.Check.obt)
-SEMANTIC = ('R18.clip', 'R18.cov', 'R18.wmom')
+SEMANTIC = ('R18.clip', 'R18.cov', 'R18.wmom',
+            # decided by complete enumeration of the integer index cases plus term equality over a closed vocabulary (anything
+            # outside the vocabulary is "not recognised"), and by data flow from the public parameters to conversion calls
+            'R18.interp::interplin::formula', 'R18.interp::interplin::two-sided-index-clamp', 'R18.interp::interplin::inputs-keep-their-values',
+            # decided on every path of the term-domain execution / on the abstract meaning of the library search primitives
+            'R18.wmed', 'R18.stats::get_stats::plain-definitions')
 
 
 def run(chk):
@@ -390,11 +398,11 @@ def _clamp_classes(r, x, u):
         f = e.xreplace({SS(x, u): s_, SIZE(x): n_})
         CL = sp.Function("CLIP")
         f = f.replace(CL, lambda v_, lo, hi: sp.Min(sp.Max(v_, lo), hi))
-        if f.free_symbols - {s_, n_} or f.atoms(sp.core.function.AppliedUndef):
-            out[e] = None
+        if f.free_symbols - {s_, n_} or f.atoms(sp.core.function.AppliedUndef) or s_ not in f.free_symbols:
+            out[e] = None           # not a function of the search result (a fixed position of some other formulation): not classified
             continue
         cls = {"k": True, "k+1": True}
-        low = high = True
+        miss = {"k": set(), "k+1": set()}       # where (below the table / inside / above) the expression differs from k, from k+1
         bad = False
         for n in range(2, 9):
             for sv in range(0, n + 1):
@@ -407,20 +415,24 @@ def _clamp_classes(r, x, u):
                     bad = True
                     break
                 k = min(max(sv - 1, 0), n - 2)
+                zone = "below" if sv == 0 else ("above" if sv == n else "inside")
                 if val != k:
                     cls["k"] = False
-                    if sv == 0:
-                        low = False
-                    if sv == n:
-                        high = False
+                    miss["k"].add(zone)
                 if val != k + 1:
                     cls["k+1"] = False
+                    miss["k+1"].add(zone)
             if bad:
                 break
         if bad:
             out[e] = None
         else:
-            out[e] = "k" if cls["k"] else ("k+1" if cls["k+1"] else ("other", low, high))
+            # described against the nearer of the two roles (segment start k / segment end k+1)
+            ref = "k" if len(miss["k"]) <= len(miss["k+1"]) else "k+1"
+            txt = {"below": "query points below the first table point", "inside": "query points inside the table", "above": "query points above the last table point"}
+            desc = "differs from the segment %s index %s = clamp(searchsorted-1, 0, n-2)%s for %s" % (
+                "start" if ref == "k" else "end", ref, "" if ref == "k" else "+1", ", ".join(txt[z] for z in ("below", "inside", "above") if z in miss[ref]))
+            out[e] = "k" if cls["k"] else ("k+1" if cls["k+1"] else ("other", "below" not in miss["k"], "above" not in miss["k"], desc))
     return out
 
 
@@ -442,8 +454,12 @@ def interplin(chk, repo):
     rk = r.xreplace({e: (K if c == "k" else K + 1) for e, c in cls.items() if c in ("k", "k+1")})
     eq, d = symx.equal(rk, ref)
     unknown = [e for e, c in cls.items() if c is None]
-    chk.ob("R18.interp", "interplin::formula", (None if (not eq and unknown) else eq), fi.where(),
-           what + ("" if eq else " (found %s)" % str(r)[:300]))
+    # a contradiction is only read off a term made of the table look-ups, the search, the size and the clamp primitives: a result that
+    # goes through anything else (another library routine, an uninterpreted helper) is not recognised
+    foreign = sorted({_head(a) for a in r.atoms(sp.core.function.AppliedUndef)} - {"AT", "SEARCHSORTED", "SIZE", "CLIP"})
+    foreign += sorted(str(s_) for s_ in r.free_symbols - {v, x, u})
+    chk.ob("R18.interp", "interplin::formula", (None if (not eq and (unknown or foreign)) else eq), fi.where(),
+           what + ("" if eq else " (found %s)" % str(r)[:300]) + ("" if eq or not foreign else " [not interpreted: %s]" % ", ".join(foreign)[:120]))
     # both clamps present (two-sided): upper to n-2, lower to 0
     others = [(e, c) for e, c in cls.items() if isinstance(c, tuple)]
     if any(c == "k" for c in cls.values()) and not others:
@@ -452,8 +468,7 @@ def interplin(chk, repo):
         ok2 = False
     else:
         ok2 = None
-    side = "; ".join("`%s` is not clamped %s" % (str(e)[:80], " and ".join(w for w, good in (("below (to 0)", c[1]), ("above (to n-2)", c[2])) if not good) or "to the segment index")
-                     for e, c in others)
+    side = "; ".join("`%s` %s" % (str(e)[:80], c[3]) for e, c in others)
     chk.ob("R18.interp", "interplin::two-sided-index-clamp", ok2, fi.where(),
            "the segment index is clamped to [0, n-2] on both sides (straight-line extension beyond either end)%s" % (": " + side if side else ""))
     # every input passes atleast_1d (or an equivalent array conversion) before it is used
@@ -465,6 +480,83 @@ def interplin(chk, repo):
                 conv[src] = call_name(a.value)
     chk.ob("R18.interp", "interplin::inputs-normalised", all(conv.get(p) == "atleast_1d" for p in pos), fi.where(),
            "all three inputs pass atleast_1d (scalars accepted) (%s)" % conv)
+    _interp_value_rules(chk, repo, fi, pos)
+
+
+_FLOAT64_NAMES = {"f8", "float64", "float", "np.float64", "numpy.float64", "d", "np.double", "numpy.double", "np.float_", "<f8", "=f8", "double",
+                  "np.longdouble", "longdouble", "np.float128", "float128", "g"}
+_NARROW_NAMES = {"int", "i8", "i4", "i2", "i1", "u8", "u4", "u2", "u1", "int64", "int32", "int16", "int8", "uint64", "uint32", "uint16", "uint8", "intp", "int_",
+                 "uint", "l", "q", "i", "bool", "bool_", "?", "b1", "<i8", "<i4", "=i8", "=i4", "long", "longlong", "intc", "integer"}
+_CONVERT = {"astype": 0, "view": 0, "asarray": 1, "asanyarray": 1, "array": 1, "ascontiguousarray": 1, "asfortranarray": 1, "require": 1, "fromiter": 1}
+_ROUNDING = {"floor", "ceil", "rint", "trunc", "round", "round_", "around", "fix", "int", "int64", "int32", "int16", "int8", "intp", "int_", "uint64", "uint32"}
+
+
+def _dtype_verdict(dt, role, roles):
+    """does a conversion of the input `role` to the dtype expression dt keep every value: True / False (with a reason) / None (not read)"""
+    txt = norm(dt).strip("'\"")
+    short = txt.split(".")[-1] if txt.startswith(("np.", "numpy.")) else txt
+    if txt in _FLOAT64_NAMES or short in _FLOAT64_NAMES:
+        return True, "float64"
+    if short == "ndarray":
+        return True, "a plain ndarray view"
+    if short in _NARROW_NAMES:
+        return False, "the integer type `%s` truncates real values" % txt
+    if isinstance(dt, ast.Attribute) and dt.attr == "dtype":
+        other = _role_of_expr(dt.value, roles)
+        if other is not None:
+            if other == role:
+                return True, "its own dtype"
+            return False, "the dtype of the %s (an integer-typed %s truncates the %s)" % (other, other, role)
+        return None, txt
+    if isinstance(dt, ast.Call) and call_name(dt) in ("result_type", "promote_types", "common_type", "find_common_type"):
+        members = [_role_of_expr(a.value if isinstance(a, ast.Attribute) and a.attr == "dtype" else a, roles) for a in dt.args]
+        if role in members or call_name(dt) == "common_type":
+            return True, "a common type that includes its own"
+        return None, txt
+    return None, txt
+
+
+def _interp_value_rules(chk, repo, fi, pos):
+    """the values that are located in the table, and the table itself, are the caller's values: between a public parameter and its uses
+    no conversion narrows them (to an integer type, or to the dtype of ANOTHER input, which for an integer-typed table truncates the
+    query points so that the wrong segment is chosen and the value is taken off the neighbouring line).  Found by data flow from the
+    parameters through array re-presentations (atleast_1d, asarray, astype, copy ...), in the routine and the private helpers it calls."""
+    names = dict(zip(pos, ("tabulated values", "table abscissae", "query points")))
+    units = _units(repo, fi, names)
+    seen = []
+    for un in units:
+        for c in walk_no_nested(un.fi.node):
+            if not isinstance(c, ast.Call):
+                continue
+            nm = call_name(c)
+            method = isinstance(c.func, ast.Attribute) and dotted_name(c.func.value) not in ("np", "numpy")
+            src = c.func.value if method else (c.args[0] if c.args else None)
+            if src is None or (nm not in _CONVERT and nm not in _ROUNDING):
+                continue
+            role = _role_of_expr(src, un.roles)
+            if role is None:
+                continue
+            if nm in _ROUNDING:
+                if method and nm not in ("round",):
+                    continue
+                seen.append((False, un.fi.where(c), "`%s` rounds the %s" % (norm(c)[:80], role)))
+                continue
+            dt = kwarg(c, "dtype")
+            if dt is None:
+                if (_CONVERT[nm] == 0) != method:
+                    continue                # np.astype(x, t) / x.asarray(t): not the numpy spellings this table lists
+                k = _CONVERT[nm]            # position of the target type among the written arguments
+                dt = c.args[k] if len(c.args) > k else None
+            if dt is None:
+                continue
+            ok, why = _dtype_verdict(dt, role, un.roles)
+            seen.append((ok, un.fi.where(c), "`%s` converts the %s to %s" % (norm(c)[:80], role, why)))
+    bad = [x for x in seen if x[0] is False]
+    unread = [x for x in seen if x[0] is None]
+    first = (bad or unread or [(True, fi.where(), "")])[0]
+    chk.ob("R18.interp", "interplin::inputs-keep-their-values", False if bad else (None if unread else True), first[1],
+           "no input is narrowed on its way to the search and the formula (never cast to an integer type or to another input's dtype): %d conversions with a "
+           "target type%s" % (len(seen), "".join("; " + x[2] for x in (bad + unread)[:3])))
 
 
 class _NoRec(Exception):
@@ -932,6 +1024,7 @@ REL = {ast.Lt: _F("LT"), ast.LtE: _F("LE"), ast.Gt: _F("GT"), ast.GtE: _F("GE"),
 RELNAMES = {"LT", "LE", "GT", "GE", "EQ", "NE"}
 NEG = {"LT": "GE", "LE": "GT", "GT": "LE", "GE": "LT", "EQ": "NE", "NE": "EQ"}
 TRUE_, FALSE_, NONE_ = sp.Symbol("True"), sp.Symbol("False"), sp.Symbol("None")
+CUMSUM, FIRSTPOS = _F("CUMSUM"), _F("FIRSTPOS")
 REDUCE = {"mean": "MEAN", "std": "STD", "sum": "SUM", "min": "MIN", "max": "MAX", "var": "VAR", "median": "MEDIAN"}
 
 
@@ -1610,6 +1703,8 @@ class _PX:
                 return args[0] if nm == "float" else _F("INT")(args[0])
             if nm == "abs" and len(args) == 1 and isinstance(args[0], sp.Basic):
                 return ABSF(args[0])
+            if nm in ("min", "max") and len(args) >= 2 and not kws and star is None and all(isinstance(x, sp.Basic) for x in args):
+                return _F("MINF" if nm == "min" else "MAXF")(*args)
             if nm == "dict":
                 out = _Kw()
                 self.kw_update(out, args, kws)
@@ -1651,6 +1746,15 @@ class _PX:
                 return _F(REDUCE[nm])(a0, *[_F("KW_" + k)(_t(v)) for k, v in sorted(kws.items())])
         if nm == "size" and len(args) == 1 and isinstance(a0, sp.Basic):
             return _csize(a0)
+        if nm == "cumsum" and len(args) == 1 and isinstance(a0, sp.Basic) and (not kws or (set(kws) == {"axis"} and kws["axis"] in (0, None, sp.Integer(0)))):
+            return CUMSUM(a0)
+        if nm == "searchsorted" and len(args) == 2 and all(isinstance(x, sp.Basic) for x in args) and set(kws) <= {"side"} and kws.get("side", "left") in ("left", "right"):
+            # position of the first element that is >= v (side='left', the default) / > v (side='right')
+            return FIRSTPOS(REL[ast.GtE if kws.get("side", "left") == "left" else ast.Gt](args[0], args[1]))
+        if nm in ("minimum", "maximum") and len(args) == 2 and not kws and all(isinstance(x, sp.Basic) for x in args):
+            return _F("MINF" if nm == "minimum" else "MAXF")(*args)
+        if nm == "argmax" and len(args) == 1 and not kws and _is_mask(a0):
+            return FIRSTPOS(a0)             # position of the first True (0 when there is none)
         if nm == "take" and len(args) == 2 and not kws and all(isinstance(x, sp.Basic) for x in args):
             return _idx(args[0], args[1])
         if nm == "compress" and len(args) == 2 and not kws and all(isinstance(x, sp.Basic) for x in args):
@@ -2178,6 +2282,62 @@ def _sign_form(t, truth):
     return (e, h in ("GT", "LT"))
 
 
+def _cum_relation(mask):
+    """a selection over a running sum as (running-sum term, relation name, target): CUMSUM(.) REL target, solved for the running sum
+    when it occurs linearly (total - cumsum <= half is cumsum >= total - half); None when the mask is not of this kind"""
+    h = _head(mask)
+    if h == "NOT" and _head(mask.args[0]) in RELNAMES:
+        inner = mask.args[0]
+        return _cum_relation(_F(NEG[_head(inner)])(*inner.args))
+    if h not in ("LT", "LE", "GT", "GE"):
+        return None
+    d = sp.expand(mask.args[0] - mask.args[1])
+    cums = [a for a in d.atoms(sp.core.function.AppliedUndef) if _head(a) == "CUMSUM"]
+    if len(cums) != 1:
+        return None
+    c = cums[0]
+    coef = d.coeff(c, 1)
+    rest = sp.expand(d - coef * c)
+    if not coef.is_number or coef == 0 or not coef.is_real or rest.has(c):
+        return None
+    if coef < 0:
+        h = {"LT": "GT", "LE": "GE", "GT": "LT", "GE": "LE"}[h]
+    return c, h, sp.expand(-rest / coef)
+
+
+def _search_position(K, sizes):
+    """read a position computed in closed form by the library search primitives over a running sum (non-decreasing: the weights are
+    not negative) as `the first position whose running sum REL target`: returns (running-sum term, 'GE' | 'GT' | other relation, target,
+    text) or None.  Accepted spellings: a.searchsorted(t, side=...) / np.searchsorted, np.argmax(mask), np.where(mask)[0][0] /
+    flatnonzero(mask)[0], (mask).sum() / count_nonzero(mask) counting the positions still short of the target; optionally wrapped in
+    int(.) and min(., size-1) (the position stays inside the array)."""
+    for _ in range(4):
+        h = _head(K)
+        if h == "INT":
+            K = K.args[0]
+        elif h == "MINF" and len(K.args) == 2 and any(sp.expand(a - (n - 1)) == 0 for a in K.args for n in sizes):
+            K = [a for a in K.args if not any(sp.expand(a - (n - 1)) == 0 for n in sizes)]
+            if len(K) != 1:
+                return None
+            K = K[0]
+        else:
+            break
+    h = _head(K)
+    if h == "FIRSTPOS" or (h == "IDX" and _head(K.args[0]) == "WHERE" and K.args[1] == 0):
+        mask = K.args[0] if h == "FIRSTPOS" else K.args[0].args[0]
+        r = _cum_relation(mask)
+        if r is None:
+            return None
+        return r[0], r[1], r[2], "the first position where %s" % str(mask)[:160]
+    if h == "COUNT":
+        # the number of positions whose running sum is still short of the target is the first position that is not
+        r = _cum_relation(K.args[0])
+        if r is None:
+            return None
+        return r[0], {"LT": "GE", "LE": "GT"}.get(r[1], "count-of-" + r[1]), r[2], "the number of positions where %s" % str(K.args[0])[:160]
+    return None
+
+
 def wmedian(chk, repo):
     fi = repo.func(ST + "wmedian")
     chk.analysed_unit(fi.qualname)
@@ -2188,6 +2348,7 @@ def wmedian(chk, repo):
     pos = [p for p in fi.params if not p.startswith("*")]
     agg = _Agg()
     norec, npaths, ks = None, 0, set()
+    closed = False
     try:
         outs = _PX(repo, fi, one_d=True, max_body=4).returns({pos[0]: A, pos[1]: W})
         for rv, st in outs:
@@ -2198,8 +2359,30 @@ def wmedian(chk, repo):
                 k = int(rv.args[1].args[1])
             sorted_ok = k is not None
             if not sorted_ok and isinstance(rv, sp.Basic) and _head(rv) == "IDX" and rv.args[0] == A and rv.args[1].is_Integer:
-                agg.put("wmedian::sorted-scan", False, lambda: "the value at position %s of the unsorted data is returned" % rv.args[1])
+                # (a path that first tests something else, e.g. the size of the input, may return a fixed element rightly: not read)
+                only_weight_tests = all(isinstance(t, sp.Basic) and any(_head(a) == "IDX" and a.args[0] == W for a in t.atoms(sp.core.function.AppliedUndef)) for t, _ in st.cons)
+                agg.put("wmedian::sorted-scan", False if only_weight_tests else None, lambda: "the value at position %s of the unsorted data is returned" % rv.args[1])
                 continue
+            if not sorted_ok and isinstance(rv, sp.Basic) and _head(rv) == "IDX" and rv.args[0] == A and _head(rv.args[1]) == "IDX" and rv.args[1].args[0] == S:
+                # the stopping position is computed in closed form (running sum + library search) instead of by a scan
+                sp_ = _search_position(rv.args[1].args[1], (SIZE(A), SIZE(W), _csize(S)))
+                if sp_ is not None:
+                    cum, relname, target, text = sp_
+                    closed = True
+                    agg.put("wmedian::sorted-scan", True)
+                    agg.put("wmedian::returns-value-at-position", True)
+                    tgt_ok = sp.expand(target - half) == 0
+                    agg.put("wmedian::half-total", tgt_ok if (tgt_ok or not _opaque_term(target)) else None, lambda: "the running weight is compared with %s" % str(target)[:160])
+                    over = cum.args[0] if len(cum.args) == 1 else None
+                    order_ok = True if over == IDX(W, S) else (False if over == W or (_head(over) == "IDX" and over.args[0] == W and _is_index_array(over.args[1])) else None)
+                    rel_ok = True if relname == "GE" else (False if relname in ("GT", "LT", "LE", "count-of-GE", "count-of-GT") else None)
+                    agg.put("wmedian::scan", _and3(order_ok, rel_ok), lambda: (
+                        "the position returned is %s, i.e. the first sorted value whose cumulative weight %s half the total, not the first that REACHES it (>=): "
+                        "when a leading group of the sorted weights sums to exactly half the total the next larger value is returned"
+                        % (text, {"GT": "EXCEEDS (>)"}.get(relname, "satisfies `%s`" % relname))) if order_ok else
+                        "the running sum is taken over %s, not over the weights in sorted order" % str(over)[:120])
+                    agg.put("wmedian::seed", _and3(order_ok, rel_ok), lambda: "position 0 is returned only when %s" % text)
+                    continue
             agg.put("wmedian::sorted-scan", True if sorted_ok else None, lambda: "returned value %s" % str(rv)[:200])
             if k is None:
                 continue
@@ -2227,10 +2410,11 @@ def wmedian(chk, repo):
                 agg.put("wmedian::seed", got == want, lambda: "position 0 is returned when %s" % sorted(map(str, got)))
     except (_NoRec, RecursionError, TypeError, ValueError, AttributeError, KeyError, IndexError) as ex:
         norec = str(ex)
-    short = None if {0, 1, 2} <= ks else "only the stopping positions %s were reached" % sorted(ks)
+    short = None if ({0, 1, 2} <= ks or (closed and not ks)) else "only the stopping positions %s were reached" % sorted(ks)
     texts = [("wmedian::sorted-scan", "the value returned is the data value at a position of the argsort of the values"),
              ("wmedian::half-total", "half of the total weight is the target"),
-             ("wmedian::scan", "advance through the sorted order while the remaining weight still exceeds half the total (strict >): stops at the first value whose cumulative weight reaches half"),
+             ("wmedian::scan", "advance through the sorted order while the remaining weight still exceeds half the total (strict >): stops at the first value whose cumulative weight reaches half "
+                               "(closed form: the first position whose cumulative sorted weight is >= half the total)"),
              ("wmedian::seed", "sorted position 0 is returned when its weight alone reaches half the total"),
              ("wmedian::returns-value-at-position", "the value at the stopping position (in sorted order) is returned")]
     for key, text in texts:
@@ -2323,8 +2507,23 @@ def summary(chk, repo):
                     X = col if scal else A
                     n = DIM(X, sp.Integer(0))
                     want = [_F("MEAN")(X, ax0), _F("STD")(X, ax0), _F("STD")(X, ax0) / sp.sqrt(n)]
-                    ok = all(sp.expand(a - b) == 0 for a, b in zip(strip, want))
-                    agg.put("get_stats::plain-definitions", ok, lambda: "mean/std/err are %s" % [str(t)[:80] for t in trip])
+                    # counts that are the number of rows N by construction: the column form of 1-d data has N entries in all
+                    # (and so has the 1-d array it was made from, on the path where the input is 1-d); ddof=0 is numpy's default
+                    same_n = {SIZE(col): DIM(col, sp.Integer(0))}
+                    if scal:
+                        same_n.update({SIZE(A): n, DIM(A, sp.Integer(0)): n})
+                    got3 = [t.xreplace(same_n).replace(lambda e: _head(e) in ("MEAN", "STD") and _F("KW_ddof")(sp.Integer(0)) in e.args,
+                                                       lambda e: e.func(*[a for a in e.args if a != _F("KW_ddof")(sp.Integer(0))])) for t in strip]
+                    diff = [nm_ for nm_, a, b in zip(("mean", "std", "err"), got3, want) if sp.expand(a - b) != 0]
+                    ok = not diff
+                    if diff:
+                        # a contradiction is read only off terms made of the reductions and the counts; anything else is not recognised
+                        heads = {_head(a) for t in got3 for a in t.atoms(sp.core.function.AppliedUndef)}
+                        if heads - {"MEAN", "STD", "DIM", "SIZE", "IDXN", "KW_axis", "KW_ddof", "NDIM"} or any(_opaque_term(t) for t in got3):
+                            ok = None
+                    agg.put("get_stats::plain-definitions", ok, lambda: "for %s input `%s` is %s, not %s" % (
+                        "1-d (handled as N-by-1)" if scal else "N-by-d", diff[0], str(got3[("mean", "std", "err").index(diff[0])])[:160],
+                        str(want[("mean", "std", "err").index(diff[0])])[:120]))
     except (_NoRec, RecursionError, TypeError, ValueError, AttributeError, KeyError, IndexError) as ex:
         norec = str(ex)
     texts = [("get_stats::min-max", "min and max are those of the data (over rows)"),
